@@ -143,6 +143,7 @@ pub fn profile_for(prop: usize, fi: bool) -> Profile {
         9 => {
             p.faults = &["N-BIT", "D-ROT", "P-CRASH-S", "N-SPLICE"];
             p.fuzz = TextFuzz::Siblings;
+            p.engines = true;
             p.enc = 1;
             p.max_plies = 60;
         }
@@ -231,6 +232,8 @@ pub struct RunCfg {
     pub table_log2: u32,
     pub enabled: Vec<&'static str>,
     pub start_class: &'static str,
+    pub max_plies: u32,
+    pub long_then_mate: bool,
 }
 
 pub enum End {
@@ -268,6 +271,15 @@ pub struct World {
     trace: bool,
     did_tree: bool,
     used_keys: Vec<u64>,
+}
+
+/// A second, independent generator for late additions to the swarm configuration, so that adding a knob does
+/// not shift every other draw of the run.
+fn rng_for_cfg(seed: u64) -> Rng {
+    Rng::new(seed ^ 0xC0F1_6C0F_16C0_F16C)
+}
+fn cfg_rng_chance(r: &mut Rng, den: u64) -> bool {
+    r.chance(1, den)
 }
 
 fn has(list: &[&'static str], k: &str) -> bool {
@@ -323,7 +335,18 @@ impl World {
             table_log2: *rng.pick(&[0u32, 0, 1, 1, 2, 2, 3, 3, 4, 5, 6, 8, 10, 12, 14]),
             enabled,
             start_class: "",
+            max_plies: 0,
+            long_then_mate: false,
         };
+        let mut cfg = cfg;
+        cfg.max_plies = prof.max_plies;
+        // a share of the C10 / C11 runs shuffles for more than a hundred reversible plies and is then steered
+        // into mate or stalemate: results and claims on a game that ends late
+        if (prof.prop == 10 && cfg_rng_chance(&mut rng_for_cfg(seed), 8)) || (prof.prop == 11 && cfg_rng_chance(&mut rng_for_cfg(seed), 4)) {
+            cfg.long_then_mate = true;
+            cfg.max_plies = 260;
+            cfg.policy = 3;
+        }
         World {
             rng,
             exec: Exec::new(armed),
@@ -487,9 +510,14 @@ impl World {
     // ------------------------------------------------------------------------------ start
 
     fn start(&mut self) -> Result<(), End> {
-        let cls = self.rng.weighted(&self.prof.start_w);
+        let cls = if self.cfg.long_then_mate && self.rng.chance(3, 4) { 3 } else { self.rng.weighted(&self.prof.start_w) };
         let (pos, name): (Pos, &'static str) = match cls {
-            0 => (Pos::initial(), "initial"),
+            0 => {
+                // the move-number field selects the constructor the server uses (Game::new / new_with_board(Board::default()) / from_str)
+                let mut p = Pos::initial();
+                p.fullmove = 1 + self.rng.below(3) as u32;
+                (p, "initial")
+            }
             1 => (Pos::from_fen(gen::CORPUS[self.rng.usize(gen::CORPUS.len())]).unwrap(), "corpus"),
             2 => {
                 let men = self.rng.range(3, 32) as usize;
@@ -589,14 +617,15 @@ impl World {
         loop {
             let over = self.exec.srv.model.as_ref().map_or(true, |g| !g.open());
             let plies = self.exec.stats.plies;
-            let budget_out = self.events >= self.prof.max_events || plies >= self.prof.max_plies as u64;
+            let max_events = if self.cfg.long_then_mate { 2600 } else { self.prof.max_events };
+            let budget_out = self.events >= max_events || plies >= self.cfg.max_plies as u64;
             if (budget_out || self.heap.is_empty()) && !tail_started {
                 // the quiescent tail: faults stop, partitions heal, crashed nodes restart, clients resync
                 tail_started = true;
                 self.quiesce()?;
                 continue;
             }
-            if tail_started && (self.events >= self.prof.max_events + 120 || self.heap.is_empty()) {
+            if tail_started && (self.events >= max_events + 120 || self.heap.is_empty()) {
                 break;
             }
             if over && !tail_started && self.rng.chance(1, 5) {
@@ -783,6 +812,9 @@ impl World {
                 self.op(Op::ArbiterAct { act: CAct::Claim })?;
             }
         }
+        if self.cfg.long_then_mate && !open && self.rng.chance(1, 2) {
+            self.op(Op::ArbiterAct { act: CAct::Claim })?;
+        }
         if self.cfg.flag_falls && !self.quiet && open && self.rng.chance(1, 40) {
             self.fault("T-JUMP");
             let c = if self.rng.chance(1, 2) { Col::W } else { Col::B };
@@ -802,7 +834,11 @@ impl World {
     // ------------------------------------------------------------------------------ clients
 
     fn choose_move(&mut self, pos: &Pos, lm: &[Mv]) -> Mv {
-        let policy = if self.rng.chance(1, 8) { 0 } else { self.cfg.policy };
+        let mut policy = if self.rng.chance(1, 8) { 0 } else { self.cfg.policy };
+        if self.cfg.long_then_mate {
+            let clock = self.exec.srv.model.as_ref().map_or(0, |g| g.clock);
+            policy = if clock >= 100 { 2 } else { 3 };
+        }
         match policy {
             1 => {
                 // special-move seeker
@@ -821,6 +857,8 @@ impl World {
                             15
                         } else if pos.pinned().contains(&m.from) {
                             8
+                        } else if pos.make(*m).checkers().len() >= 2 {
+                            40
                         } else if pos.is_capture(*m) {
                             3
                         } else if pos.make(*m).in_check() {
@@ -1067,6 +1105,19 @@ impl World {
                 None => return Ok(()),
             };
             let r = self.rng.below(10);
+            if (self.prof.prop == 3 || self.prof.prop == 8 || self.prof.prop == 9) && self.rng.chance(1, 6) {
+                // a UI edits the position with the (deprecated) setters
+                let sq = self.rng.below(64) as u8;
+                let kind = if self.rng.chance(1, 3) {
+                    None
+                } else {
+                    let k = *self.rng.pick(&[Kind::P, Kind::N, Kind::B, Kind::R, Kind::Q]);
+                    let c = if self.rng.chance(1, 2) { Col::W } else { Col::B };
+                    Some((k, c))
+                };
+                self.eop(c, task, EOp::Edit { sq, kind })?;
+                continue;
+            }
             if r < 6 {
                 let lm = pos.legal_moves();
                 if lm.is_empty() {
@@ -1292,7 +1343,7 @@ impl World {
                 3 | 4 => self.eop(c, task, EOp::TableGet { key: alias_key })?,
                 5 => self.eop(c, task, EOp::TableAdd { key: alias_key, val })?,
                 _ => {
-                    let pred = self.rng.below(5) as u8;
+                    let pred = self.rng.below(6) as u8;
                     self.eop(c, task, EOp::TableReplaceIf { key: alias_key, pred, val })?
                 }
             }
@@ -1452,7 +1503,18 @@ impl World {
             q.ep = mk(f, tr);
             out.push(q);
         }
-        out.push(base_no_ep);
+        out.push(base_no_ep.clone());
+        // two-component variants (en-passant file x one castling letter): never compared with the base as
+        // "siblings", but they enter the collision census together with everything else
+        for f in 0..8 {
+            for i in 0..4 {
+                let mut q = base_no_ep.clone();
+                let tr = if q.stm == Col::W { 5 } else { 2 };
+                q.ep = mk(f, tr);
+                q.castle[i] = !q.castle[i];
+                out.push(q);
+            }
+        }
         out.retain(|q| q.strict_validity_error().is_none() && q != p);
         out
     }
@@ -1475,10 +1537,25 @@ impl World {
                             self.op(Op::ValidateBuilder { placement, stm, castle, ep_file, order })?;
                         }
                     } else if r < 3 {
-                        // neighbours of the current position through the builder (one square changed, rights, ep file)
+                        // neighbours of the current position through the builder (one square changed or two squares
+                        // swapped - in particular a king with a rook at home -, rights, ep file)
                         let mut pl: Vec<u8> = squares_to_placement(&pos.sq).into_bytes();
                         let i = self.rng.usize(64);
-                        pl[i] = *self.rng.pick(b".PNBRQKpnbrqk");
+                        match self.rng.below(4) {
+                            0 => {
+                                let j = self.rng.usize(64);
+                                pl.swap(i, j);
+                            }
+                            1 => {
+                                let (k, r2) = *self.rng.pick(&[(4usize, 7usize), (4, 0), (60, 63), (60, 56)]);
+                                pl.swap(k, r2);
+                                if self.rng.chance(1, 2) {
+                                    // kings and rooks put there if missing, so that the swap is the only defect
+                                    if k == 4 { pl[r2] = b'K'; pl[k] = b'R'; } else { pl[r2] = b'k'; pl[k] = b'r'; }
+                                }
+                            }
+                            _ => pl[i] = *self.rng.pick(b".PNBRQKpnbrqk"),
+                        }
                         let stm = if self.rng.chance(1, 4) { pos.stm.other() } else { pos.stm };
                         let castle = self.rng.below(16) as u8;
                         let ep_file = if self.rng.chance(1, 2) { 8 } else { self.rng.below(8) as u8 };
@@ -1496,7 +1573,11 @@ impl World {
                         // model-written valid text: must be accepted (completeness)
                         let men = self.rng.range(2, 32) as usize;
                         let ep = self.rng.chance(1, 2);
-                        let q = gen::random_valid(&mut self.rng, men, ep, true);
+                        let q = if self.rng.chance(1, 6) {
+                            Pos::from_fen(gen::CORPUS[self.rng.usize(gen::CORPUS.len())]).unwrap()
+                        } else {
+                            gen::random_valid(&mut self.rng, men, ep, true)
+                        };
                         let t = if self.rng.chance(1, 2) { q.fen() } else { q.fen_ep_if_beside() };
                         self.op(Op::Validate { text: t })?;
                     } else {
@@ -1567,7 +1648,37 @@ impl World {
                 for _ in 0..n {
                     let m = Mv::new(self.rng.below(64) as u8, self.rng.below(64) as u8, *self.rng.pick(&crate::oracle::ALL_PROMOS));
                     let base = m.uci();
-                    match self.rng.below(8) {
+                    match self.rng.below(11) {
+                        8 => {
+                            // a file letter (or a square and a file letter) followed by an arbitrary scalar
+                            let ch = char::from_u32(0x80 + self.rng.below(0x2_0000) as u32).unwrap_or('\u{131}');
+                            let f = (b'a' + self.rng.below(8) as u8) as char;
+                            if self.rng.chance(1, 2) {
+                                self.op(Op::DecodeSquare { text: format!("{}{}", f, ch) })?
+                            } else {
+                                let t = match self.rng.below(3) {
+                                    0 => format!("{}{}{}", f, ch, &base[2..]),
+                                    1 => format!("{}{}{}", &base[..2], f, ch),
+                                    _ => format!("{}{}", &base[..4], ch),
+                                };
+                                self.op(Op::DecodeUci { text: t })?
+                            }
+                        }
+                        9 | 10 => {
+                            // white space and line terminators around an otherwise valid text
+                            let ws = *self.rng.pick(&["\n", "\r", "\r\n", "\t", " ", "\u{b}", "\u{a0}"]);
+                            let t = match self.rng.below(3) {
+                                0 => format!("{}{}", ws, base),
+                                1 => format!("{}{}", base, ws),
+                                _ => format!("{}{}{}", ws, base, ws),
+                            };
+                            if self.rng.chance(1, 4) {
+                                let sq = sq_name(self.rng.below(64) as u8);
+                                self.op(Op::DecodeSquare { text: format!("{}{}", ws, sq) })?
+                            } else {
+                                self.op(Op::DecodeUci { text: t })?
+                            }
+                        }
                         0 | 1 | 2 | 3 => self.op(Op::DecodeUci { text: base })?,
                         4 => {
                             let t = self.mutate_text(&base);
